@@ -1,4 +1,6 @@
 mod c01;
+mod c02;
+mod c11;
 mod c14;
 mod c18;
 mod gen;
@@ -34,6 +36,8 @@ fn main() {
         "C06" => hist::run(seed, n, &mut out, false),
         "C07" => hist::run(seed, n, &mut out, true),
         "C18" => c18::run(seed, n, &mut out, args.get(5).map(|s| s.as_str()).unwrap_or("quick")),
+        "PARSE" => c11::run_parse(seed, n, &mut out),
+        "C02" => c02::run(seed, n, &mut out, args.get(5).map(|s| s.as_str()).unwrap_or("quick")),
         "C13" => targeted::run_c13(seed, n, &mut out),
         "C15" => targeted::run_c15(seed, n, &mut out),
         _ => {
